@@ -22,7 +22,7 @@ func init() {
 	property("C18",
 		"Static conformance of the no-crash / termination / error-location mechanisms: (a) the only reachable panic is the invalid-UTF-8 panic in the lexer and its guard implies an invalid encoding (RuneError with width 1); no unchecked type assertion, no integer division, log.Fatal only in main; (b) every token loop of the parser consumes a token on every path of an iteration and cannot continue at exhausted input (abstract evaluation with every window token = EOF, callee summaries 'errors at EOF'); every lexer loop reads a character per iteration and its guard is false at end of input; other loops are ranges or bounded counters; (c) every index/slice expression is discharged by a dominating comparison (range key, i < len, len > 0, i == len-1, next = i+1 < len) or by a reviewed exemption naming one function and operand; map updates target maps created by the same component; (d) every error returned by a repo function is returned or tested, and the failure branch returns a non-nil error (except the two environment callees whose failure is by design only logged); (e) error ranges are ordered (start token is the current or an earlier captured token) and no error is built from a synthesised or possibly unassigned token; (f) the environment-error flag only ever enables an error return or a log line, and lint construction equals normal construction with the flag off; (g, h) every lexer arm consumes a character and token consumption does not depend on environment or data; (i) the token-window vocabulary the loop rules rely on is what it says (nextToken shifts the window by one, xTokenIs tests its own slot, expectPeek advances once exactly on a match); a pointer result of a fallible call is looked into only after its error was tested; counters of counter loops move on every back edge. NOT decided: stack depth for pathologically nested input, the wall-clock bound, FormatText's string-offset loop. Lazily initialised pointer fields are set on every path before use (C18.j); allocation sizes are bounded by the input (C18.k); every parser error is located (C18.e); every recursive cycle of the parser consumes a token and counter bounds are exit tests (C18.b).",
 		[]string{"unicode.IsLetter(0) = unicode.IsDigit(0) = unicode.IsSpace(0) = false (the lexer's own predicates are evaluated at 0 from their definitions)", "once the lexer has returned EOF it returns EOF forever (readChar at end of input leaves ch = 0 and changes no position)", "exemptions listed in /verif/exemptions.json (each names one function and operand with a reason)", "configuration values (command_config.json) are outside the property's quantifier"},
-		"C18.a", "C18.b", "C18.c", "C18.d", "C18.e", "C18.f", "C18.g", "C18.h", "C18.i", "C16.c", "C12.a", "C12.b", "C01.c", "C01.d", "C19.b", "C16.d", "C18.j", "C18.k", "C13.a", "C13.b", "C14.d", "C18.l", "C18.m", "C14.a", "C07.a")
+		"C18.a", "C18.b", "C18.c", "C18.d", "C18.e", "C18.f", "C18.g", "C18.h", "C18.i", "C16.c", "C12.a", "C12.b", "C01.c", "C01.d", "C19.b", "C16.d", "C18.j", "C18.k", "C13.a", "C13.b", "C14.d", "C18.l", "C18.m", "C14.a", "C07.a", "C04.f")
 
 	register(&Rule{ID: "C18.a", Doc: "no reachable crash construct except the guarded invalid-UTF-8 panic", Floor: 4, Run: c18a})
 	register(&Rule{ID: "C18.b", Doc: "loops terminate: progress on every path, no continuation at exhausted input", Floor: 68, Run: c18b})
@@ -119,6 +119,39 @@ func c18a(c *Ctx) {
 			case *ssa.TypeAssert:
 				if !x.CommaOk {
 					c.Bad(fk+"/unchecked-type-assertion", c.W.Pos(x.Pos()), "type assertion without the comma-ok form can panic")
+				} else if x.Referrers() != nil {
+					// `v, _ := x.(*T)` followed by v.f: the comma-ok form with the ok thrown away is
+					// an unchecked assertion of a pointer that is then nil
+					var val, okv *ssa.Extract
+					for _, r := range *x.Referrers() {
+						if ex, isEx := r.(*ssa.Extract); isEx {
+							if ex.Index == 0 {
+								val = ex
+							} else {
+								okv = ex
+							}
+						}
+					}
+					okUsed := okv != nil && okv.Referrers() != nil && len(*okv.Referrers()) > 0
+					if !okUsed && val != nil && val.Referrers() != nil {
+						if _, isPtr := val.Type().Underlying().(*types.Pointer); isPtr {
+							for _, r := range *val.Referrers() {
+								deref := false
+								switch y := r.(type) {
+								case *ssa.FieldAddr:
+									deref = y.X == ssa.Value(val)
+								case *ssa.UnOp:
+									deref = y.Op == token.MUL
+								case ssa.CallInstruction:
+									deref = len(y.Common().Args) > 0 && y.Common().Args[0] == ssa.Value(val) && y.Common().Signature().Recv() != nil
+								}
+								if deref {
+									c.Bad(fk+"/unchecked-type-assertion", c.W.Pos(r.Pos()), "the result of a comma-ok type assertion is dereferenced although the ok value is never looked at: when the value is of another type the pointer is nil and the compiler panics")
+									break
+								}
+							}
+						}
+					}
 				}
 			case *ssa.BinOp:
 				if x.Op == token.QUO || x.Op == token.REM {
@@ -1195,7 +1228,34 @@ func c18d(c *Ctx) {
 				case *ssa.Return:
 					handled = true
 				case *ssa.Phi:
-					handled = true // merged into the function's own error result (e.g. `statement, impData, err = ...`)
+					// merged into the function's own error variable (`statement, impData, err = …` in
+					// several arms): the merged value must itself be tested against nil or returned
+					var phiUsed func(p ssa.Value, depth int) bool
+					phiUsed = func(p ssa.Value, depth int) bool {
+						if p.Referrers() == nil || depth > 3 {
+							return false
+						}
+						for _, r2 := range *p.Referrers() {
+							switch z := r2.(type) {
+							case *ssa.Return:
+								return true
+							case *ssa.BinOp:
+								if isNilConst(z.X) || isNilConst(z.Y) {
+									return true
+								}
+							case *ssa.Phi:
+								if phiUsed(z, depth+1) {
+									return true
+								}
+							}
+						}
+						return false
+					}
+					if phiUsed(y, 0) {
+						handled = true
+					} else {
+						why = "the error is merged into a variable that is neither tested nor returned afterwards"
+					}
 				case *ssa.BinOp:
 					if isNilConst(y.X) || isNilConst(y.Y) {
 						// find the If and the failure successor
